@@ -70,8 +70,9 @@ fn child(args: &[String]) -> i32 {
             let l = PidFileLocking::lsp(&file);
             let r = l.lock();
             ev(&format!("lock_ret {}", r.is_ok()));
-            gate("hold");
-            gate("hold2");
+            // a long-lived owner (the language server): the scheduler lets it continue only when
+            // every other process has finished
+            gate("holdwait");
         }
         // what forc-fmt does before touching a file
         "checker" => {
@@ -255,8 +256,13 @@ fn execute(programs: &[&str], allow_crash: &[bool], prefix: &[usize], work: &Pat
     let mut points: Vec<Point> = vec![];
     let mut running: Option<usize> = None;
     loop {
+        let others_finished = |i: usize, procs: &Vec<Proc>| (0..procs.len()).all(|j| j == i || !matches!(procs[j].st, St::Waiting(ref l) if l != "holdwait"));
         let waiting: Vec<usize> = (0..procs.len())
-            .filter(|i| matches!(procs[*i].st, St::Waiting(_)))
+            .filter(|i| match &procs[*i].st {
+                St::Waiting(l) if l == "holdwait" => others_finished(*i, &procs),
+                St::Waiting(_) => true,
+                _ => false,
+            })
             .collect();
         if waiting.is_empty() {
             break;
@@ -288,7 +294,14 @@ fn execute(programs: &[&str], allow_crash: &[bool], prefix: &[usize], work: &Pat
             });
             actions.push((*p, false));
         }
-        for p in &order {
+        let mut crashable: Vec<usize> = order.clone();
+        for i in 0..procs.len() {
+            // a long-lived owner parked at `holdwait` is not schedulable but can still be killed
+            if matches!(procs[i].st, St::Waiting(_)) && !crashable.contains(&i) {
+                crashable.push(i);
+            }
+        }
+        for p in &crashable {
             if allow_crash[*p] && procs[*p].started {
                 let label = match &procs[*p].st {
                     St::Waiting(l) => l.clone(),
@@ -455,7 +468,7 @@ fn scenarios(thorough: bool) -> Vec<Scenario> {
         vec![
             sc("owner|checker", vec!["owner", "checker"], vec![true, false], 2, 1),
             sc("owner|cleaner", vec!["owner", "cleaner"], vec![true, false], 2, 0),
-            sc("holder|checker2", vec!["holder", "checker2"], vec![true, false], 1, 1),
+            sc("holder|checker2", vec!["holder", "checker2"], vec![true, false], 2, 1),
             sc("owner|owner", vec!["owner", "owner"], vec![false, false], 1, 0),
             sc("holder|cleaner|checker", vec!["holder", "cleaner", "checker"], vec![false, false, false], 1, 0),
         ]
